@@ -13,7 +13,7 @@ import (
 func init() {
 	register(&PropDef{
 		ID:          "C08",
-		Patterns:    []string{"./data", "./node"},
+		Patterns:    []string{"./data", "./node", "./std/php/..."},
 		Explanation: "The subtype relation is recomputed by separate code for class values, $this values, thrown values and for instanceof. Whether each returns the right answer on every graph is value-level; what is structural is whether each implementation consults every kind of edge. (EDGES) For each decision entry point the closure over same-package calls must (a) read the extends edge (GetExtend), (b) read the implements edges of ancestors as well — a GetImplements call inside a loop or recursive function that also advances along GetExtend — and (c) follow interface parents with a worklist or recursion (GetExtends inside a loop or a recursive function). An implementation that never reads an edge kind cannot honour it. (LOOKUP) ClassValue.GetMethod tries the runtime class first and then walks GetExtend upwards in a loop that re-reads GetExtend of the class just loaded. (LIKE) the structural test iterates all methods the target declares, compares parameter counts, and looks methods up through an inheriting provider (not the class statement's own table). Necessary conditions only: a wrong comparison inside a walk is invisible to them; parent::/self::/static:: resolution depends on runtime context objects and is not decided.",
 		Assumptions: []string{
 			"decision entry points: data.(Class).Is, data.isClassValueInstanceOf, data.extendISClass, node.checkClassIs",
@@ -246,7 +246,14 @@ func c08Run(r *Run) {
 				inClosure[f] = true
 			}
 		}
-		for _, p := range []*packages.Package{dpkg, npkg} {
+		walkerPkgs := []*packages.Package{dpkg, npkg}
+		// builtins of the standard library that answer a subtype question themselves (is_a-like functions)
+		for _, p := range r.sortedPkgs() {
+			if strings.HasPrefix(p.PkgPath, modPath+"/std/php") && p.TypesInfo != nil && len(p.Syntax) > 0 {
+				walkerPkgs = append(walkerPkgs, p)
+			}
+		}
+		for _, p := range walkerPkgs {
 			for _, f := range funcDecls(p) {
 				if f.Body == nil || inClosure[f] || seenEntry[f] {
 					continue
@@ -272,7 +279,7 @@ func c08Run(r *Run) {
 			if ui.repeated && ue.any {
 				implAnc = true
 			}
-			if calls(e.p, f, "GetExtends").repeated {
+			if calls(e.p, f, "GetExtends").repeated && c08FollowsInterfaceParents(e.p, f, closure) {
 				ifaceParents = true
 			}
 			// the walk may be split over helpers: a loop (or recursion) in f that calls one helper reading
@@ -1312,4 +1319,120 @@ func c08DeclaredCount(r *Run, p *packages.Package, e ast.Expr, depth int) bool {
 		return true
 	})
 	return all && n > 0
+}
+
+
+// c08FollowsInterfaceParents: reading GetExtends() inside some loop or recursion is not yet following it —
+// a walk along the *class* chain that looks one level into each interface's parents is repeated but
+// shallow. Following means the names GetExtends() hands out are themselves expanded: (a) the loop over a
+// GetExtends() result calls back into a function that reaches this one (recursion per parent), (b) the
+// parents are appended to a work list that a loop of this function consumes, or (c) the walk asks a
+// callback at every level (iterator/visitor walkers).
+func c08FollowsInterfaceParents(p *packages.Package, f *ast.FuncDecl, closure func(*packages.Package, *ast.FuncDecl) []*ast.FuncDecl) bool {
+	info := p.TypesInfo
+	if c08WalksWithCallback(info, f) {
+		return true
+	}
+	isGetExtends := func(e ast.Expr) bool {
+		c, ok := ast.Unparen(e).(*ast.CallExpr)
+		if !ok {
+			return false
+		}
+		se, ok := ast.Unparen(c.Fun).(*ast.SelectorExpr)
+		return ok && se.Sel.Name == "GetExtends"
+	}
+	// variables holding a GetExtends() result
+	held := map[types.Object]bool{}
+	ast.Inspect(f.Body, func(n ast.Node) bool {
+		if as, ok := n.(*ast.AssignStmt); ok && len(as.Lhs) == len(as.Rhs) {
+			for i, r := range as.Rhs {
+				if isGetExtends(r) {
+					if id, ok := as.Lhs[i].(*ast.Ident); ok {
+						held[info.ObjectOf(id)] = true
+					}
+				}
+			}
+		}
+		return true
+	})
+	byObj := map[types.Object]*ast.FuncDecl{}
+	for _, fd := range funcDecls(p) {
+		byObj[info.Defs[fd.Name]] = fd
+	}
+	reachesF := func(g *ast.FuncDecl) bool {
+		for _, h := range closure(p, g) {
+			if h == f {
+				return true
+			}
+		}
+		return false
+	}
+	follows := false
+	ast.Inspect(f.Body, func(n ast.Node) bool {
+		switch x := n.(type) {
+		case *ast.RangeStmt, *ast.ForStmt:
+			src := false
+			var body *ast.BlockStmt
+			if rs, ok := x.(*ast.RangeStmt); ok {
+				body = rs.Body
+				src = isGetExtends(rs.X)
+				if id, ok := ast.Unparen(rs.X).(*ast.Ident); ok && held[info.Uses[id]] {
+					src = true
+				}
+			} else if fs := x.(*ast.ForStmt); fs.Cond != nil {
+				// for k := 0; k < len(parents); k++ { … parents[k] … }
+				body = fs.Body
+				ast.Inspect(fs.Cond, func(m ast.Node) bool {
+					if id, ok := m.(*ast.Ident); ok && held[info.Uses[id]] {
+						src = true
+					}
+					if e, ok := m.(ast.Expr); ok && isGetExtends(e) {
+						src = true
+					}
+					return true
+				})
+			}
+			if !src || body == nil {
+				return true
+			}
+			ast.Inspect(body, func(m ast.Node) bool {
+				c, ok := m.(*ast.CallExpr)
+				if !ok {
+					return true
+				}
+				if g := byObj[calleeOf(info, c)]; g != nil && reachesF(g) {
+					follows = true // (a)
+				}
+				if id, ok := ast.Unparen(c.Fun).(*ast.Ident); ok && id.Name == "append" {
+					follows = true // (b) parents pushed one by one onto a work list
+				}
+				return true
+			})
+		case *ast.CallExpr:
+			// (b) queue = append(queue, iface.GetExtends()...)
+			if id, ok := ast.Unparen(x.Fun).(*ast.Ident); ok && id.Name == "append" {
+				for _, a := range x.Args[1:] {
+					if isGetExtends(a) {
+						follows = true
+					}
+					if aid, ok := ast.Unparen(a).(*ast.Ident); ok && held[info.Uses[aid]] {
+						follows = true
+					}
+				}
+			}
+			// (a') the parents handed as a whole to a function that reaches this one
+			if g := byObj[calleeOf(info, x)]; g != nil && reachesF(g) {
+				for _, a := range x.Args {
+					if isGetExtends(a) {
+						follows = true
+					}
+					if aid, ok := ast.Unparen(a).(*ast.Ident); ok && held[info.Uses[aid]] {
+						follows = true
+					}
+				}
+			}
+		}
+		return true
+	})
+	return follows
 }
